@@ -1,0 +1,62 @@
+// Copyright © 2024 Attestant Limited.
+// Licensed under the Apache License, Version 2.0 (the "License");
+// you may not use this file except in compliance with the License.
+// You may obtain a copy of the License at
+//
+//     http://www.apache.org/licenses/LICENSE-2.0
+//
+// Unless required by applicable law or agreed to in writing, software
+// distributed under the License is distributed on an "AS IS" BASIS,
+// WITHOUT WARRANTIES OR CONDITIONS OF ANY KIND, either express or implied.
+// See the License for the specific language governing permissions and
+// limitations under the License.
+
+//go:build verif
+
+// Package verifhook provides verification hook points.
+// With the 'verif' build tag hooks dispatch to an installed handler.
+package verifhook
+
+import "sync/atomic"
+
+// Event describes one hook point being reached.
+type Event struct {
+	// Name is the name of the hook point.
+	Name string
+	// Keys are the storage keys involved, if any.
+	Keys [][]byte
+}
+
+// Handler handles an event.  The returned error is only honoured by Point().
+type Handler func(Event) error
+
+var handler atomic.Pointer[Handler]
+
+// Set installs a handler; nil removes it.
+func Set(h Handler) {
+	if h == nil {
+		handler.Store(nil)
+
+		return
+	}
+	handler.Store(&h)
+}
+
+// Point is a verification hook point that may return an injected error.
+func Point(name string, keys ...[]byte) error {
+	h := handler.Load()
+	if h == nil {
+		return nil
+	}
+
+	return (*h)(Event{Name: name, Keys: keys})
+}
+
+// Exit is a verification hook point that cannot alter the caller's result.
+func Exit(name string, keys ...[]byte) {
+	h := handler.Load()
+	if h == nil {
+		return
+	}
+	_ = (*h)(Event{Name: name, Keys: keys})
+}
